@@ -165,8 +165,11 @@ def check_index(res, db, ctx):
     if len(pts):
         res.count("battery_runs_nonempty")
     idx = db.index
-    if len(idx._timestamps) != len(idx._storage_pos_sorted_by_ts):
-        res.count("diagnostic.time_arrays_length_drift")
+    try:  # diagnostic only, on private arrays that another implementation need not have
+        if len(idx._timestamps) != len(idx._storage_pos_sorted_by_ts):
+            res.count("diagnostic.time_arrays_length_drift")
+    except AttributeError:
+        res.count("diagnostic.private_arrays_not_present")
     if live == want:
         return None
     diff = [k for k in live if live[k] != want[k]][:6]
@@ -180,8 +183,49 @@ def check_index(res, db, ctx):
     return Violation("C06", "valid-index-differs-from-rebuild", detail, replay=ctx.get("replay"), features={"first_diff": diff[0].split("[")[0]})
 
 
+def _generic_state(o, depth=0, seen=None):
+    """Implementation-independent structural view of an object graph (attributes, containers, points, datetimes)."""
+    from datetime import datetime
+
+    from tinyflux import Point
+
+    if seen is None:
+        seen = set()
+    if o is None or isinstance(o, (bool, int, float, str, bytes)):
+        return (type(o).__name__, o)
+    if isinstance(o, datetime):
+        return ("dt", o.isoformat())
+    if isinstance(o, Point):
+        return ("P", _generic_state(o.time), o.measurement, tuple(o.tags.items()), tuple((k, _generic_state(v)) for k, v in o.fields.items()))
+    if id(o) in seen or depth > 8:
+        return ("...",)
+    seen = seen | {id(o)}
+    if isinstance(o, dict):
+        return ("d", tuple(sorted(((repr(_generic_state(k, depth + 1, seen)), _generic_state(v, depth + 1, seen)) for k, v in o.items()), key=repr)))
+    if isinstance(o, (set, frozenset)):
+        return ("s", tuple(sorted((_generic_state(x, depth + 1, seen) for x in o), key=repr)))
+    if isinstance(o, (list, tuple)) or type(o).__name__ == "array":
+        return ("l", tuple(_generic_state(x, depth + 1, seen) for x in o))
+    names = []
+    if hasattr(o, "__dict__"):
+        names += list(vars(o))
+    for klass in type(o).__mro__:
+        names += [n for n in getattr(klass, "__slots__", ()) if isinstance(n, str)]
+    if not names or callable(o):
+        return ("o", type(o).__name__)
+    return ("o", type(o).__name__, tuple((n, _generic_state(getattr(o, n, None), depth + 1, seen)) for n in sorted(set(names))))
+
+
 def full_state_digest(db):
     """Digest of everything that can influence future behaviour (memory storage)."""
+    try:
+        return _known_layout_digest(db)
+    except AttributeError:
+        # another implementation of the index / storage internals: fall back on a structural walk of the objects
+        return h64(repr((_generic_state(db.index), _generic_state(db.storage), sorted(getattr(db, "_measurements", {})))))
+
+
+def _known_layout_digest(db):
     idx = db.index
     st = db.storage
     mem = tuple((p.time, p.measurement, tuple(p.tags.items()), tuple(p.fields.items())) for p in st._memory)
@@ -319,6 +363,56 @@ READ_OPS_THAT_REINDEX = {"search", "count", "contains", "get", "select", "all", 
                          "get_field_keys", "get_tag_values", "get_field_values", "get_timestamps"}
 
 
+class _ReadFault:
+    """Monitor: the j-th row read from the primary file fails with EIO (once)."""
+
+    def __init__(self, j):
+        self.j = j
+        self.n = 0
+        self.hit = False
+
+    def before(self, ev):
+        if ev.target == "primary" and ev.kind == "iter" and not self.hit:
+            self.n += 1
+            if self.n == self.j:
+                self.hit = True
+                raise OSError(5, "injected EIO while reading the database file")
+
+    def after(self, ev):
+        pass
+
+
+def faulty_rebuild(res, s, c):
+    """Error path of the index itself: the rebuild that a read triggers is cut short by a read error.  Whatever the
+    read does, an index that is flagged valid afterwards must still equal a rebuilt one."""
+    from .. import ioproxy
+
+    n = len(s.model.points)
+    hub = ioproxy.IOHub()
+    hub.primary = s.path
+    mon = _ReadFault(max(1, n // 2))
+    hub.monitor = mon
+    exc = None
+    with ioproxy.Installed(hub):
+        ioproxy.wrap_open_handles(hub, s.db.storage)
+        try:
+            with quiet_stdout():
+                s.db.count(qast.to_real(("noop", "measurement")))
+        except Exception as e:  # noqa: BLE001
+            exc = e
+        finally:
+            hub.enabled = False
+            ioproxy.unwrap_handles(s.db.storage)
+    if not mon.hit:
+        res.count("rebuild_read_fault_not_reached")
+        return
+    res.count("rebuilds_cut_short_by_read_error")
+    res.count("rebuilds_cut_short.read_raised" if exc is not None else "rebuilds_cut_short.read_answered")
+    v = check_index(res, s.db, dict(c, after="read error on row %d of %d during the rebuild triggered by a read" % (mon.j, n)))
+    if v is not None:
+        res.violate(v)
+
+
 def make_random_judge(res):
     def judge(kind, s, out, ctx):
         if kind == "read" and s.cfg["auto_index"] and out.op["op"] in READ_OPS_THAT_REINDEX and out.exc is None:
@@ -336,6 +430,8 @@ def make_random_judge(res):
         v = check_index(res, s.db, c)
         if v is not None:
             res.violate(v)
+        elif s.path and s.cfg["auto_index"] and not s.valid() and len(s.model.points) >= 2 and not s.cfg.get("csv"):
+            faulty_rebuild(res, s, c)
         if s.cfg["auto_index"] and out.op["op"] in ("insert",) and out.pre_valid and out.exc is None:
             pre = ctx["pre"]
             tmax = max((p.t for p in pre.points), default=None)
@@ -404,6 +500,7 @@ def run(res, tier, seed, shard, nshards):
     res.require("random_history_ops")
     res.require("long_random_histories")
     res.require("future_dated_histories")
+    res.require("rebuilds_cut_short_by_read_error")
     res.assumptions += [
         "the answer battery is finite: equivalence is decided on its answers (all getters, len/empty/latest_time and ~150 "
         "searches per state), not on private arrays; structural drift of private arrays is only logged as a diagnostic",
